@@ -156,6 +156,28 @@ def call(name, *args):
     return ("call", name, list(args), sig[2])
 
 
+def programs_C05(rng, tier):
+    """directed loops whose condition is NOT loop-invariant (C re-evaluates it before every iteration), nested
+    conditions, and assignments in both arms"""
+    out = []
+    L = lambda v: ("lit", str(v), v, (True, 32))
+    iv = ("var", "i", (False, 32))
+    u32, i32 = T["uint32_t"], T["int32_t"]
+    n_u, n_i = var("n", "uint32_t"), var("n", "int32_t")
+    acc = wr("RxV", ("bin", "+", reg("RxV"), L(1)), )
+    for src in (reg("RsV"), reg("RtV")):
+        m = ("bin", "&", src, L(15))
+        out.append([decl("uint32_t", "n", m), ("for", "i", ("bin", "-", n_u, iv), [acc])])                                   # i < n - i
+        out.append([decl("int32_t", "n", m), ("for", "i", n_i, [("assign", n_i, "-=", L(1)), acc])])                           # body lowers the bound
+        out.append([decl("uint32_t", "n", m), ("for", "i", ("shift", ">>", n_u, L(1)), [acc, ("assign", n_u, "=", ("bin", "-", n_u, L(1)))])])
+        out.append([decl("uint32_t", "n", m), ("for", "i", n_u, [("if", ("cmp", "==", iv, L(2)), [("assign", n_u, "=", L(0))], None), acc])])   # early exit
+        out.append([decl("uint32_t", "n", m), ("for", "i", n_u, [acc], None, 2), wr("RdV", iv)])                             # i += 2, counter read afterwards
+        out.append([decl("uint32_t", "n", m), ("for", "i", ("bin", "+", n_u, L(0)), [("assign", n_u, ">>=", L(1)), acc]), wr("RdV", n_u)])
+        out.append([wr("RxV", m), ("for", "i", ("bin", "&", reg("RxV"), L(7)), [("assign", ("reg", "RxV", (True, 32)), ">>=", L(1)), wr("ReV", iv)])])  # bound reads a register the body writes
+        out.append([decl("uint32_t", "n", m), ("for", "i", L(3), [("for", "j", ("bin", "-", n_u, iv), [acc])])])              # inner bound reads the outer counter
+    return out
+
+
 def programs_C06(rng, tier):
     """directed placements of value-producing side effects"""
     out = []
@@ -237,6 +259,42 @@ def dead_arm_calls():
     return out
 
 
+def dead_arm_hybrids():
+    """constant ?: conditions whose arms are statement-expressions / postfix operations / calls, with a further
+    value-producing operation later in the same full expression or in the next statement"""
+    out = []
+    zero, one = ("lit", "0", 0, (True, 32)), ("lit", "1", 1, (True, 32))
+    iv = ("var", "i", (False, 32))
+    pre = [("assign", iv, "=", reg("RsV")), decl("uint32_t", "v", reg("RtV"))]
+    v = var("v", "uint32_t")
+    se = lambda k: ("stmtexpr", "", T["uint32_t"], "v", ("bin", "+", v, ("lit", str(k), k, (True, 32))), False)
+    f = lambda n, r: ("call", n, [reg(r)], (False, 32))
+    arms = [(se(5), se(6)), (se(5), f("clz32", "RuV")), (f("clz32", "RuV"), se(6)), (("post", "i", "++"), se(6)), (se(5), ("post", "i", "--"))]
+    later = [lambda: ("post", "i", "++"), lambda: f("revbit32", "RvV"), lambda: se(9)]
+    for cond in (zero, one, ("cmp", "==", one, zero), ("cmp", "<", zero, one)):
+        for a1, a2 in arms:
+            for lt in later:
+                out.append(pre + [decl("uint32_t", "a", ("bin", "+", ("tern", cond, a1, a2), lt())), wr("RdV", var("a", "uint32_t")), wr("ReV", ("bin", "+", iv, v))])
+                out.append(pre + [decl("uint32_t", "a", ("tern", cond, a1, a2)), wr("RdV", ("bin", "+", var("a", "uint32_t"), lt())), wr("ReV", ("bin", "+", iv, v))])
+    return out
+
+
+def repeated_calls():
+    """the same call text twice: C performs two calls, each on the CURRENT value of its argument"""
+    out = []
+    L = lambda k: ("lit", str(k), k, (True, 32))
+    x, a = var("x", "uint32_t"), var("a", "uint32_t")
+    for name in ("clz32", "clo32", "revbit32", "revbit16"):
+        c = lambda: call(name, x)
+        out.append([decl("uint32_t", "x", reg("RsV")), decl("uint32_t", "a", c()), ("assign", x, "=", ("shift", "<<", x, L(4))), wr("RdV", ("bin", "+", a, c()))])
+        out.append([decl("uint32_t", "x", reg("RsV")), decl("uint32_t", "a", c()), ("assign", x, "+=", L(1)), decl("uint32_t", "b", c()), wr("RdV", ("bin", "-", a, var("b", "uint32_t")))])
+        out.append([decl("uint32_t", "x", reg("RsV")), decl("uint32_t", "a", L(0)), ("if", reg("PuV"), [("assign", a, "=", c())], None), wr("RdV", ("bin", "+", a, c()))])
+        out.append([decl("uint32_t", "x", reg("RsV")), wr("RdV", c()), ("assign", x, "=", reg("RtV")), wr("ReV", c())])
+        out.append([decl("uint32_t", "x", reg("RsV")), wr("RdV", ("bin", "+", c(), c()))])
+        out.append([decl("uint32_t", "x", reg("RsV")), ("for", "i", L(3), [wr("RxV", ("bin", "+", reg("RxV"), c())), ("assign", x, ">>=", L(1))])])
+    return out
+
+
 def explicit_rw_mixed(ast) -> bool:
     reads, writes = set(), set()
     gen._regs(list(ast), reads, writes)
@@ -255,13 +313,13 @@ def run_prop(prop: str, tier: str, replay=None) -> int:
         asts = programs_C03(rng, tier) + stream_generated(rng, 40, 40, gen.Cfg(hybrids=0.0, max_stmts=3, casts=0.5, loops=0.0))
     elif prop == "C05":
         n = 220 if tier == "quick" else 2500
-        asts = stream_generated(rng, n, n // 2, gen.Cfg(hybrids=0.0, max_stmts=6, max_nest=3, loops=0.2, ifs=0.3, compound_assign=0.4, max_depth=2, chains=0.35))
+        asts = programs_C05(rng, tier) + stream_generated(rng, n, n // 2, gen.Cfg(hybrids=0.0, max_stmts=6, max_nest=3, loops=0.2, ifs=0.3, compound_assign=0.4, max_depth=2, chains=0.35))
     elif prop == "C06":
         n = 150 if tier == "quick" else 2000
-        asts = programs_C06(rng, tier) + stream_generated(rng, n, n // 2, gen.Cfg(hybrids=0.35, max_stmts=4, max_nest=2, max_depth=2, loops=0.15, ifs=0.25))
+        asts = programs_C06(rng, tier) + dead_arm_calls() + dead_arm_hybrids() + stream_generated(rng, n, n // 2, gen.Cfg(hybrids=0.35, max_stmts=4, max_nest=2, max_depth=2, loops=0.15, ifs=0.25))
     elif prop == "C08":
         n = 120 if tier == "quick" else 1500
-        asts = programs_C08(rng, tier) + stream_generated(rng, n, n // 3, gen.Cfg(hybrids=0.5, max_stmts=3, max_depth=3))
+        asts = programs_C08(rng, tier) + repeated_calls() + stream_generated(rng, n, n // 3, gen.Cfg(hybrids=0.5, max_stmts=3, max_depth=3))
     else:
         asts = programs_C09(rng, tier) + dead_arm_calls() + stream_generated(rng, 40, 40, gen.Cfg(hybrids=0.0, literals=0.5, max_stmts=2))
     if replay:
